@@ -36,6 +36,13 @@ def case(draw):
         e2e.add_hidden_ends(draw, desc)  # the inner chain ends must follow the same flags
     if kind == "dropwater" and not desc.get("waters"):
         desc["waters"] = [dict(draw(strat.water()), chain="W", seq=300)]
+    if kind == "dropwater" and draw(st.integers(0, 1)) == 0:
+        # water numbering that collides with the solute's (files without chain ids whose waters are
+        # numbered from 1, merged files): a water is identified by its residue NAME, not by its number
+        c0 = desc["chains"][0]
+        for k, w in enumerate(desc["waters"]):
+            w["chain"] = c0["id"]
+            w["seq"] = c0["start"] + (k % len(c0["seq"]))
     base = draw(st.sampled_from([[], [], ["--noopt"], ["--nodebump"]]))
     extra = []
     if kind == "format":
